@@ -243,6 +243,7 @@ def run(rep, tier, rng):
     lines = field_histories(rng, tier)
     lines += c08.gen(rng.fork("c08"), "quick") + c09.gen(rng.fork("c09"), "quick")[::3] + c11.gen(rng.fork("c11"), "quick")[::4]
     lines += chanops.gen(rng.fork("co"), "quick", COVER)[::2]
+    lines += chanops.default_channel_histories(rng.fork("dc"), tier, COVER)
     lines = [covered(l) for l in lines]
     core.diff_stage(rep, "X:C04:mac-histories(all field values)", lines, macstage.make_judge([], extra=mac_oracle))
     io = core.run_lines(core.harness_bin(), lines)
